@@ -34,8 +34,15 @@ def reset():
     shutil.copy(NET, repo + "/nndata.tbin.compr")
 
 
+def cmake_opts():
+    try:
+        return json.load(open(out + "/meta.json")).get("cmake_options", "") or ""
+    except Exception:
+        return ""
+
+
 def build():
-    p = sh("cmake -G Ninja -S %s -B %s -DCMAKE_BUILD_TYPE=RelWithDebInfo >/dev/null && cmake --build %s -j10 2>&1 | tail -5" % (repo, bdir, bdir))
+    p = sh("cmake -G Ninja -S %s -B %s -DCMAKE_BUILD_TYPE=RelWithDebInfo %s >/dev/null && cmake --build %s -j10 2>&1 | tail -5" % (repo, bdir, cmake_opts(), bdir))
     return p.returncode == 0, p.stdout
 
 
@@ -60,11 +67,14 @@ def demo_cmd():
         incs = " ".join("-I%s/%s" % (repo, x) for x in ["lib/texellib", "lib/texellib/util", "lib/texellib/nn", "lib/texellib/hw", "lib/texellib/tb",
                                                         "lib/texellib/book", "lib/texellib/debug", "lib/texelutillib", "lib/texelutillib/pg", "app/texel"])
         exe = bdir + "/seed-demo"
-        comp = "g++ -std=c++17 -O1 -pthread %s %s %s/lib/texelutillib/libtexelutillib.a %s/lib/texellib/libtexellib.a -lrt -lpthread -o %s" % (f, incs, bdir, bdir, exe)
+        simd = cmake_opts()
+        extra = ("-mssse3 -DUSE_SSSE3 " if ("SSSE3" in simd or "AVX" in simd) else "") + ("-mavx2 -DUSE_AVX2 " if "AVX2" in simd or "AVX512" in simd else "") + ("-mavx512f -mavx512bw -mavx512vnni -DUSE_AVX512 " if "AVX512" in simd else "")
+        comp = "g++ -std=c++17 -O1 -pthread " + extra + "%s %s %s/lib/texelutillib/libtexelutillib.a %s/lib/texellib/libtexellib.a -lrt -lpthread -o %s" % (f, incs, bdir, bdir, exe)
         return comp, exe
+    eng = sh("find %s -name texel -type f -perm -u+x | head -1" % bdir).stdout.strip()
     if f.endswith(".py"):
-        return None, "python3 " + f
-    return None, "bash " + f
+        return None, "python3 %s %s" % (f, eng)
+    return None, "bash %s %s" % (f, eng)
 
 
 def run_demo(k):
@@ -78,7 +88,7 @@ def run_demo(k):
     fails, last = 0, ""
     for _ in range(k):
         try:
-            p = sh(run, timeout=1800, cwd=out)
+            p = sh(run, timeout=1800, cwd=out, env=dict(os.environ, TEXEL=run.split()[-1]))
             rc, last = p.returncode, p.stdout[-600:]
         except subprocess.TimeoutExpired:
             rc, last = 124, "timeout"
